@@ -146,6 +146,36 @@ func SValues(v *eddsa.Variant, S *big.Int) (names []string, vals [][]byte) {
 	return
 }
 
+// SBoundary lists legal S values (0 <= S < L) at the edges of the range and of
+// the limbs: 1, 2, 2^64-1, 2^64, 2^128, 2^(n-2), 2^(n-1)-1, 2^(n-1), 2^(n-1)+1,
+// (L-1)/2, L-2, L-1, with n the bit length of L. For edwards25519 the values
+// 2^252, 2^252+1, L-2, L-1 lie in the sliver [2^252, L).
+func SBoundary(v *eddsa.Variant) (names []string, vals []*big.Int) {
+	L := v.C.N
+	n := uint(L.BitLen())
+	bi := func(i int64) *big.Int { return big.NewInt(i) }
+	p2 := func(k uint) *big.Int { return new(big.Int).Lsh(bi(1), k) }
+	add := func(name string, x *big.Int) {
+		if x.Sign() < 0 || x.Cmp(L) >= 0 {
+			panic("c05kit: boundary S outside [0, L)")
+		}
+		names, vals = append(names, name), append(vals, x)
+	}
+	add("1", bi(1))
+	add("2", bi(2))
+	add("2^64-1", new(big.Int).Sub(p2(64), bi(1)))
+	add("2^64", p2(64))
+	add("2^128", p2(128))
+	add("2^(n-2)", p2(n-2))
+	add("2^(n-1)-1", new(big.Int).Sub(p2(n-1), bi(1)))
+	add("2^(n-1)", p2(n-1))
+	add("2^(n-1)+1", new(big.Int).Add(p2(n-1), bi(1)))
+	add("(L-1)/2", new(big.Int).Rsh(L, 1))
+	add("L-2", new(big.Int).Sub(L, bi(2)))
+	add("L-1", new(big.Int).Sub(L, bi(1)))
+	return
+}
+
 // Cases enumerates the verification cases of one base. The base context must
 // be allowed for the variant.
 func Cases(v *eddsa.Variant, b Base, opt Options) []Case {
@@ -178,7 +208,7 @@ func Cases(v *eddsa.Variant, b Base, opt Options) []Case {
 	}
 
 	// ---- A = R = identity (canonical), S = j*L: [S]B = O = R + [k]A for every j.
-	// j = 0 satisfies the equation under the identity key (judged "either");
+	// j = 0 satisfies the equation under the identity key (must-accept);
 	// for j >= 1 only the range check on S stands between the input and acceptance.
 	{
 		idE := v.Enc(c.Identity())
@@ -193,6 +223,20 @@ func Cases(v *eddsa.Variant, b Base, opt Options) []Case {
 				lax = ""
 			}
 			add("S-multiple-of-L-forged", fmt.Sprintf("S=%dL", j), lax, idE, b.Msg, cat(idE, fpx.ToLE(Sj, v.B)), b.Ctx)
+		}
+	}
+
+	// ---- A = identity, R = [S]B for S at the boundaries of [0, L): the equation
+	// [S]B = R + [k]O holds for every message, all encodings are canonical and
+	// the key is in the prime-order subgroup, so RFC 8032 verification accepts.
+	// No honest signer reaches these S (edwards25519: the sliver [2^252, L) has
+	// probability 2^-128), and they cannot be produced under an honest key
+	// either: S = r + H(R,A,M)*a, and choosing S means inverting the hash.
+	{
+		idE := v.Enc(c.Identity())
+		names, vals := SBoundary(v)
+		for i := range names {
+			add("S-boundary-identity", names[i], "", idE, b.Msg, cat(v.Enc(v.BaseMult(vals[i])), fpx.ToLE(vals[i], v.B)), b.Ctx)
 		}
 	}
 
@@ -361,11 +405,15 @@ func Floors(v *eddsa.Variant, opt Options) map[string]int64 {
 		junk = 127
 	}
 	f := map[string]int64{
-		"group:honest":      1,
-		"class:must-accept": 1, // the honest signature
-		// small-order keys signed "by" scalar 0 (2H), keys and R with a torsion component (H-1 each):
-		// the cofactored equation holds by construction, the key is not of order L or the cofactorless one fails
-		"class:either": 4*H - 2,
+		"group:honest":              1,
+		"group:S-boundary-identity": 12,
+		// the honest signature, the 12 boundary S under the identity key, S = 0 under it,
+		// and the identity key "signed by" scalar 0 with R = [r]B
+		"class:must-accept": 1 + 12 + 2,
+		// small-order keys signed "by" scalar 0 (2H, minus the identity key with R = [r]B, which is must-accept),
+		// keys and R with a torsion component (H-1 each): the cofactored equation holds by construction and
+		// either the key is outside the prime-order subgroup or the cofactorless equation fails
+		"class:either": 4*H - 3,
 		// L, L+1, S+L, 2^n-1, 2^n, 2^n+S, all-ones, S|2^k for k = n..bits-1, and S = jL
 		"reason:S>=L":             7 + (bits - n) + laxS,
 		"lax:S-range":             laxS,
